@@ -365,6 +365,22 @@ class Prop:
                             n = rng.randrange(N)
                             tj["modes"][n]["U"] = (np.array(tj["modes"][n]["U"]) * 0).tolist()
                         mk(op, tj, rng.choice([0.5, 0.1, 1e-4, 1e-8, TINY[alg]]), alg, kind="zero-" + variant)
+        # 6d. faint but genuine components (1e-4 and 1e-9 of the largest) at tolerances far below them: they must survive
+        #     (algorithm 'svd' only: the Gram-matrix route cannot resolve components below ~1e-8 relative)
+        for rep_ in range(12 if quick else 120):
+            N = rng.choice([2, 3])
+            shape = [rng.choice([4, 5, 6]) for _ in range(N)]
+            kinds = [("cp", rng.random() < 0.25) for _ in range(N)]
+            for _try in range(50):
+                tj = rand_tensor_json(rng, shape, kinds, maxr=3, lo=-3, hi=3, maxs=4)
+                if np.array(tj["modes"][0]["core"]).shape[1] == 3 and \
+                        np.linalg.matrix_rank(dense_np(tj).reshape(shape[0], -1)) == 3:
+                    break
+            else:
+                continue
+            w = np.array([1.0, 1e-4, 1e-9])
+            tj["modes"][0]["core"] = (np.array(tj["modes"][0]["core"], dtype=float) * w[None, :]).tolist()
+            mk(rng.choice(ALLOPS), tj, rng.choice([1e-12, 1e-11]), "svd", kind="faint"); k += 1
         # 6c. budget stress: larger modes and ranks, large tolerances (every truncation close to its share of the
         #     budget), every entry point, hybrid formats (factors on some modes only, CP cores at the ends)
         for _ in range(1500 if quick else 12000):
